@@ -183,7 +183,7 @@ Definition int_succs (s : state) : list state := map canon (filter_map (fun r =>
 (* every quiescent state the model can reach in reaction to one environment action *)
 Definition react_all (s : state) (a : act) : option (list state) :=
   let s1 := canon (ext (clear_log s) a) in
-  explore state_eqb int_succs 60000 [s1] [s1] [].
+  explore state_eqb int_succs 5000 [s1] [s1] [].
 
 (* ---- what the model predicts at a quiescent point ---- *)
 Fixpoint idx_where {A} (p : A -> bool) (n : nat) (l : list A) : list Z :=
@@ -258,8 +258,14 @@ Definition agrees (c : svcase) : bool :=
   end.
 
 Definition check_agree (c : svcase) : list nat :=
-  if agrees c then []
-  else 1%nat :: match first_disagreement c with Some i => [(100 + i)%nat] | None => [99%nat] end.
+  match c with
+  | CSrv acts observed =>
+      if agree_fast init acts observed then []
+      else match agree_from 0 [init] acts observed with
+           | None => []
+           | Some i => [1%nat; (100 + i)%nat]
+           end
+  end.
 
 (* ---- the whole observed history of a case (for the property predicates) ---- *)
 Definition all_events (c : svcase) : list sev :=
